@@ -9,7 +9,8 @@ From Coq Require Import Lia Permutation.
 Definition cliT (s : tsig) : cli :=
   let l := get_arguments s in
   mkCli l (T_flags l) (T_fal l) (T_inv l) (T_pos l)
-        (map (fun a => (arg_name a, fresh_value a)) l) true.
+        (map (fun a => (arg_name a, fresh_value a)) l) true
+        (map (kind_name_of_arg s) l) (map takes_value l).
 
 Lemma guard_parts s : guard s = true ->
   wf_sig s = true /\ all_have_core s = true /\ no_steal s = true /\ no_inverse_clash s = true.
@@ -25,7 +26,8 @@ Proof.
   intros W Ns. pose proof (sig_ctx_closed_form s W Ns) as Hc.
   set (l := get_arguments s) in *.
   assert (Ho : sig_cli s = Ok (mkCli l (T_flags l) (T_fal l) (T_inv l) (T_pos l) (as_kwargs (T l))
-                                     (bind_ok (s_params s) (as_kwargs (T l)))))
+                                     (bind_ok (s_params s) (as_kwargs (T l)))
+                                     (map (kind_name_of_arg s) l) (map takes_value l)))
     by (unfold sig_cli; fold l; rewrite Hc; reflexivity).
   destruct (kwargs_bind s _ W Ho) as (K & _ & B). cbn [o_kwargs o_binds] in K, B. fold l in K.
   rewrite Ho. unfold cliT. fold l. rewrite B, K. reflexivity.
@@ -231,6 +233,20 @@ Proof.
   apply andb_true_iff. split; apply forallb_forall; intros x Hx; apply mem_In.
   - now apply (Permutation_in _ P).
   - now apply (Permutation_in _ (Permutation_sym P)).
+Qed.
+
+Lemma combine_map_r {A B} (f : A -> B) l : combine l (map f l) = map (fun a => (a, f a)) l.
+Proof. induction l as [|a l IH]; simpl; [reflexivity | now rewrite IH]. Qed.
+
+Lemma find_paired {B} (g : argspec -> B) (l : list argspec) a :
+  NoDup (map arg_name l) -> In a l ->
+  find (fun x => String.eqb (arg_name (fst x)) (arg_name a)) (map (fun b => (b, g b)) l) = Some (a, g a).
+Proof.
+  induction l as [|b l IH]; simpl; intros ND H; [destruct H|].
+  inversion ND as [|? ? N1 N2]; subst. destruct H as [->|H].
+  - now rewrite String.eqb_refl.
+  - destruct (String.eqb (arg_name b) (arg_name a)) eqn:E; [|now apply IH].
+    apply String.eqb_eq in E. elim N1. rewrite E. now apply in_map.
 Qed.
 
 Section Clauses.
@@ -475,10 +491,24 @@ Section Clauses.
       assert (K : match expected_kind s p with Some k => akind_eqb (a_kind a) k | None => true end = true).
       { destruct (expected_kind s p) as [k|] eqn:Ek; [|reflexivity].
         rewrite Ea, (kind_arg_opts _ _ _ _ _ Ek). apply akind_eqb_refl. }
-      assert (V : match expected_kind s p with Some KBool => negb (takes_value a) | _ => true end = true).
-      { destruct (expected_kind s p) as [[| | |]|] eqn:Ek; try reflexivity.
+      assert (Tk : takes_of (cliT s) (p_name p) = Some (takes_value a)).
+      { unfold takes_of. cbn [cliT o_args o_takes]. fold l. rewrite combine_map_r, <- En.
+        now rewrite (find_paired takes_value l a names_nd Ha). }
+      assert (Kn : kind_name_of (cliT s) (p_name p) = Some (kind_name (s_deco s) p)).
+      { unfold kind_name_of. cbn [cliT o_args o_kind_names]. fold l. rewrite combine_map_r, <- En.
+        rewrite (find_paired (kind_name_of_arg s) l a names_nd Ha). cbn [snd]. f_equal.
+        unfold kind_name_of_arg. rewrite En.
+        destruct (wf_sig_parts s W) as (W1 & _ & _).
+        now rewrite (find_unique p_name (s_params s) p W1 Hp). }
+      assert (N : match expected_kind_name s p, kind_name_of (cliT s) (p_name p) with
+                  | Some k, Some k' => String.eqb k k' | None, Some _ => true | _, None => false end = true).
+      { rewrite Kn. destruct (expected_kind_name s p) as [k|] eqn:Ek; [|reflexivity].
+        rewrite (kind_name_expected s p k Ek). apply String.eqb_refl. }
+      assert (V : match expected_kind s p, takes_of (cliT s) (p_name p) with
+                  | Some KBool, Some tv => negb tv | _, Some _ => true | _, None => false end = true).
+      { rewrite Tk. destruct (expected_kind s p) as [[| | |]|] eqn:Ek; try reflexivity.
         rewrite Ea, (bool_takes_no_value _ _ _ _ Ek). reflexivity. }
-      rewrite K, V. cbn [andb].
+      rewrite K, N, V. cbn [andb].
       destruct (wants_inverse s p) eqn:Ew; [|reflexivity].
       assert (Eb : is_true_bool a = true) by (rewrite Ea, inverse_iff_default_true; exact Ew).
       assert (Em : main_of a = dashed (p_name p)) by (rewrite Ea; apply main_of_arg_opts).
